@@ -140,7 +140,7 @@ def check(run):
             if mode != "build" and len(set(names)) != len(names):
                 continue
             gen.append({"input": t, "mode": mode, "workers": w})
-    budget = 8000 if thorough else 3000
+    budget = 4500 if thorough else 3000   # thorough runs the builds under -race (about 5x slower per build)
     allc = []
     for g in gen:
         tar = [{"name": e["name"], "type": e["type"], "link": e["link"], "size": e["size"], "meta": e["meta"]} for e in g["input"]]
